@@ -14,14 +14,23 @@
       anyone but the bSei contract address itself, in a wired mirrored world, ends wired and mirrored.
     - [tx_mirror_rewire]: a transaction whose root IS a re-wiring owner message touches neither ledger.
     - [step_mirror], [always_mirror], [mirror_final], [mirror_from_fresh], [mirror_plain_history]:
-      the mirror holds in every world of every history (all operations, all principals).
+      from a mirrored world, the mirror holds in every world of every history that keeps the wiring
+      (all operations, all principals).
+    - [step_mirror_env], [mirror_genesis]: the same from the empty chain, under the envelope
+      "ledgers still empty or wiring complete" ([MirrorEnv]) in every visited world.
     - [Fresh_Mirror], [inst_bsei_fresh], [inst_reward_fresh]: a token instantiated without initial
       balances and a freshly instantiated reward contract are mirrored.
-    - [dec_after_debit_succeeds]: after the bSei ledger accepted a debit, the DecreaseBalance message
-      it emitted cannot fail (given the holder's accrued reward fits in 128 bits, [AccrualFits]).
+    - [step_msg_prefixed], [step_msg_J2], [J2_root], [J2_head_mirror]: the pending mirror messages
+      are always on top of the stack, so the mirror is exact whenever any other message (the hub's
+      Receive hook, the Burn/Mint of unbond and convert) starts executing inside a transaction.
+    - [dec_after_debit_succeeds], [AccrualFits_bound]: after the bSei ledger accepted a debit, the
+      DecreaseBalance message it emitted cannot fail (given the holder's accrued reward fits in
+      128 bits, [AccrualFits]).
     - [mirror_refuted_by_bsei_sender], [mirror_refuted_by_initial_balances],
       [mirror_refuted_by_reward_reinstantiate]: the three excluded classes are really necessary.
-    - [example_mirror_nonvacuous]: a concrete wired history with non-zero balances. *)
+    - [example_mirror_nonvacuous], [example_genesis_nonvacuous], [example_dec_nonvacuous]: a concrete
+      wired history (bond, transfer, unbond through Send, allowance + TransferFrom) with non-zero
+      balances satisfying the hypotheses of the theorems. *)
 From Krp Require Import Tactics Prelude Fixed FMap Types Env Registry Cw20 Reward Dispatcher Hub Exec
      ExecP Hist Inv HubFrame HubAdmin Cw20P MirrorWire.
 Open Scope N_scope.
